@@ -3,21 +3,26 @@ import AsmjitVerif.Lemmas.FrameA64
 namespace AsmjitVerif.Frame
 
 /-- What the AArch64 prolog / epilog rely on: facts about the reported numbers and about the list of
-save slots (`a64Items`). Frames with dynamic alignment or an SA register other than `sp` are excluded:
-that is the open finding C07-a64-dynalign. -/
+save slots (`a64Items`), for every frame incl. dynamic alignment and any SA register (fixes/C07-8). -/
 structure A64WF (f : Frame) : Prop where
   arch : f.arch = .a64
-  noDA : f.hasDA = false
-  /-- `sp`, or the frame pointer when it is preserved (what `update_func_frame` selects; fixes/C07-7) -/
-  sa : f.saRegId = 31 ∨ (f.saRegId = 29 ∧ f.hasFP = true)
+  kA : ∃ k, 4 ≤ k ∧ k ≤ 7 ∧ f.finalAlign = 2 ^ k
+  nat : f.natAlign = 16
+  /-- a real register: `sp` or x0 … x30 -/
+  saValid : f.saRegId ≤ 31
+  saDA : f.hasDA = true → f.saRegId ≠ 31
+  saDirty : f.saRegId ≠ 31 → (f.dirty 0).testBit f.saRegId = true
   saOffSa : f.saOffSa = f.ppSize
   fpFirst : f.hasFP = true → ∃ it rest, a64Items f = it :: rest ∧ it.2 = true
-  align : f.finalAlign = 16 ∧ f.natAlign = 16
   cleanup : f.calleeCleanup = 0
   localFits : f.localEnd ≤ f.ppOff
-  adj : f.stackAdj = f.ppOff ∧ f.stackAdj % 16 = 0
-  total : f.ppOff + f.ppSize = f.finalSize ∧ f.saOffSp = f.finalSize
-  pei : a64Total f = f.ppSize ∧ f.ppSize % 16 = 0 ∧ f.finalSize < 2 ^ 30
+  da : f.daOff ≠ invalidOff → f.localEnd ≤ f.daOff ∧ f.daOff + 8 ≤ f.ppOff
+  daIff : f.daOff ≠ invalidOff ↔ (f.hasDA = true ∧ f.hasFP = false)
+  adjPlain : f.hasDA = false → f.stackAdj = f.ppOff ∧ f.stackAdj % 16 = 0 ∧ f.saOffSp = f.finalSize ∧ f.finalAlign = 16
+  adjDA : f.hasDA = true → f.stackAdj % f.finalAlign = 0 ∧ f.ppOff ≤ f.stackAdj ∧ f.saOffSp = invalidOff
+            ∧ f.stackAdj < f.ppOff + f.finalAlign
+  total : f.ppOff + f.ppSize = f.finalSize
+  pei : a64Total f = f.ppSize ∧ f.ppSize % 16 = 0 ∧ f.finalSize < 2 ^ 30 ∧ f.stackAdj < 2 ^ 30
   first : ∀ it rest, a64Items f = it :: rest → it.1.2.2.2.2 = 0 ∧ itemsAsc (pBytes it.1) rest
             ∧ itemsEnd (pBytes it.1) rest ≤ f.ppSize ∧ 0 < pBytes it.1
   empty : a64Items f = [] → f.ppSize = 0
@@ -114,7 +119,7 @@ theorem a64_saves (f : Frame) (wf : A64WF f) (s0 : St) (sp0 : Nat) (hsp : s0.gp 
           ∃ t3, run .a64 (a64Loads f) t2 = some t3 ∧ t3.gp 31 = sp0 ∧ t3.mem = t2.mem ∧ t3.ret = none
             ∧ (∀ it ∈ a64Items f, ∀ rd ∈ pRegs it.1, t3.reg it.1.1 rd.1 = s0.reg it.1.1 rd.1 % 256 ^ it.1.2.1)
             ∧ (∀ g r, (g, r) ∉ keysOf (a64Items f) → (g, r) ≠ (0, 31) → t3.reg g r = t2.reg g r) := by
-  obtain ⟨htot, hpp16, hfs⟩ := wf.pei
+  obtain ⟨htot, hpp16, hfs, _⟩ := wf.pei
   have hnofp : f.hasFP = false → ∀ it ∈ a64Items f, it.2 = false := by
     intro hfp it hit
     cases hm : it.2 with
@@ -151,7 +156,7 @@ theorem a64_saves (f : Frame) (wf : A64WF f) (s0 : St) (sp0 : Nat) (hsp : s0.gp 
     have hbound := itemsAsc_bound rest _ hasc
     have hendge := itemsEnd_ge rest _ hasc
     have htne : a64Total f ≠ 0 := by rw [htot]; omega
-    have hppsm : f.ppSize < 2 ^ 30 := by have := wf.total.1; omega
+    have hppsm : f.ppSize < 2 ^ 30 := by have := wf.total; omega
     generalize hQ : sp0 - f.ppSize = Q at *
     have hQal : Q % 16 = 0 := by
       rw [← hQ]
@@ -281,19 +286,276 @@ theorem a64_saves (f : Frame) (wf : A64WF f) (s0 : St) (sp0 : Nat) (hsp : s0.gp 
         rw [pl2 g r (fun h => hgr (Or.inl h)), reg_setGp, if_neg (by intro ⟨h1, h2⟩; exact hgr31 (by rw [h1, h2])),
           t3'out g r (fun h => hgr (Or.inr h))]
 
-/-- **AArch64: prolog, any confined body, epilog** (frames without dynamic alignment / SA register). -/
+theorem step_and3_sp (sa k : Nat) (hk : k ≤ 7) (s : St) (hr : s.ret = none) (hb : s.gp sa < 2 ^ 64) :
+    step .a64 (Instr.and3 31 sa (-(toI32 (2 ^ k)))) s = some (s.setGp 31 (s.gp sa - s.gp sa % 2 ^ k)) := by
+  have hpk : 2 ^ k ≤ 128 := by
+    have : 2 ^ k ≤ 2 ^ 7 := Nat.pow_le_pow_right (by omega) hk
+    omega
+  simp only [step, isSome_false_of_none hr, Bool.false_eq_true, if_false]
+  rw [show Arch.a64.W = 8 from rfl, immBits_neg 8 (2 ^ k) (Or.inr rfl) ⟨Nat.two_pow_pos k, hpk⟩,
+    and_neg_pow2_n (8 * 8) (s.gp sa) k hb (by omega)]
+
+/-- body `sp` of an AArch64 frame whose save area starts at `Q` -/
+def a64BodySp (f : Frame) (Q : Nat) : Nat :=
+  if f.hasDA then Q - Q % f.finalAlign - f.stackAdj else Q - f.stackAdj
+
+theorem daBase_eq (f : Frame) (h : f.daOff < 2 ^ 32) :
+    a64DaBase f = f.daOff - f.daOff % 16 ∧ f.daOff &&& 15 = f.daOff % 16 := by
+  constructor
+  · unfold a64DaBase
+    have : (2 : Nat) ^ 32 - 1 - 15 = 2 ^ 32 - 2 ^ 4 := by decide
+    rw [this]
+    exact and_neg_pow2 f.daOff 4 h (by omega)
+  · exact Nat.and_two_pow_sub_one_eq_mod f.daOff 4
+
+/-- **the part between the save area and the body** (prolog: SA register, dynamic alignment, DA slot, `sub sp`;
+epilog: `sp` back to the save area) -/
+theorem a64_tail (f : Frame) (wf : A64WF f) (tS : St) (Q : Nat) (hret : tS.ret = none) (hsp : tS.gp 31 = Q)
+    (hfp : f.hasFP = true → tS.gp 29 = Q) (hQ16 : Q % 16 = 0)
+    (hroom : f.stackAdj + f.finalAlign ≤ Q) (hbits : Q < 2 ^ 64)
+    (tail head : List Instr) (htail : a64PrologTail f = some tail) (hhead : a64EpilogHead f = some head) :
+    ∃ s1, run .a64 (a64SaMov f ++ tail) tS = some s1 ∧ s1.ret = none ∧ s1.x = tS.x ∧ s1.gp 31 = a64BodySp f Q
+      ∧ (∀ r, r ≠ 31 → r ≠ f.saRegId → s1.gp r = tS.gp r)
+      ∧ (f.saRegId ≠ 31 → s1.gp f.saRegId = Q)
+      ∧ (∀ x, x < a64BodySp f Q + f.localEnd ∨ Q ≤ x → s1.mem x = tS.mem x)
+      ∧ a64BodySp f Q % f.finalAlign = 0 ∧ a64BodySp f Q + f.stackAdj ≤ Q
+      ∧ (f.hasDA = false → a64BodySp f Q + f.stackAdj = Q)
+      ∧ ∀ s2 : St, s2.gp 31 = a64BodySp f Q → s2.ret = none →
+          (∀ x, a64BodySp f Q + f.localEnd ≤ x → x < Q → s2.mem x = s1.mem x) →
+          (f.hasFP = true → s2.gp 29 = Q) →
+          ∃ t2, run .a64 head s2 = some t2 ∧ t2.gp 31 = Q ∧ (∀ r, r ≠ 31 → r ≠ f.saRegId → t2.gp r = s2.gp r)
+            ∧ t2.x = s2.x ∧ t2.mem = s2.mem ∧ t2.ret = none := by
+  obtain ⟨k, hk4, hk7, hA⟩ := wf.kA
+  have hpk : 16 ≤ 2 ^ k ∧ 2 ^ k ≤ 128 := by
+    have h1 : 2 ^ 4 ≤ 2 ^ k := Nat.pow_le_pow_right (by omega) hk4
+    have h2 : 2 ^ k ≤ 2 ^ 7 := Nat.pow_le_pow_right (by omega) hk7
+    omega
+  have h16dvd : 16 ∣ 2 ^ k := by
+    have : (16 : Nat) = 2 ^ 4 := rfl
+    rw [this]; exact Nat.pow_dvd_pow 2 hk4
+  obtain ⟨_, _, _, hadjsm⟩ := wf.pei
+  have hlocal := wf.localFits
+  have hsav := wf.saValid
+  -- SA register
+  have hM : ∃ tM, run .a64 (a64SaMov f) tS = some tM ∧ tM.ret = none ∧ tM.x = tS.x ∧ tM.mem = tS.mem ∧ tM.gp 31 = Q
+      ∧ (∀ r, r ≠ f.saRegId → tM.gp r = tS.gp r) ∧ (f.saRegId ≠ 31 → tM.gp f.saRegId = Q) := by
+    unfold a64SaMov a64HasSaReg a64SaReg
+    by_cases hsa : f.saRegId = 31
+    · refine ⟨tS, ?_, hret, rfl, rfl, hsp, fun _ _ => rfl, fun h => absurd hsa h⟩
+      simp [hsa, run]
+    · have h255 : f.saRegId ≠ 255 := by omega
+      have hhas : (f.saRegId != 255 && f.saRegId != 31) = true := by simp [h255, hsa]
+      by_cases hc : f.hasFP = true ∧ f.saRegId = 29
+      · refine ⟨tS, ?_, hret, rfl, rfl, hsp, fun _ _ => rfl, fun _ => by rw [hc.2]; exact hfp hc.1⟩
+        simp [hc.1, hc.2, run]
+      · have hcond : (f.hasFP && f.saRegId == 29) = false := by
+          cases h1 : f.hasFP with
+          | false => rfl
+          | true =>
+            have : f.saRegId ≠ 29 := fun h => hc ⟨h1, h⟩
+            simp [this]
+        refine ⟨tS.setGp f.saRegId (tS.gp 31), ?_, hret, rfl, rfl, ?_, ?_, ?_⟩
+        · have hhas' : a64HasSaReg f = true := hhas
+          simp only [hhas, hhas', hcond, Bool.not_false, Bool.and_self, if_true]
+          exact run_one _ _ _ _ (step_mov _ _ _ _ hret)
+        · simp only [setGp_gp]; rw [if_neg (fun h => hsa h.symm)]; exact hsp
+        · intro r hr; simp only [setGp_gp]; rw [if_neg hr]
+        · intro _; simp only [setGp_gp, if_true]; exact hsp
+  obtain ⟨tM, rM, tMret, tMx, tMmem, tMsp, tMgp, tMsa⟩ := hM
+  have hApos : 0 < f.finalAlign := by rw [hA]; exact Nat.two_pow_pos k
+  have hmodle : Q % f.finalAlign ≤ Q := Nat.mod_le _ _
+  have hmodlt : Q % f.finalAlign < f.finalAlign := Nat.mod_lt _ hApos
+  cases hda : f.hasDA with
+  | false =>
+    -- no dynamic alignment: `sub sp` / `add sp`
+    obtain ⟨e1, e16, _, hA16⟩ := wf.adjPlain hda
+    have hS : a64BodySp f Q = Q - f.stackAdj := by unfold a64BodySp; rw [hda]; rfl
+    unfold a64PrologTail at htail
+    unfold a64EpilogHead at hhead
+    simp only [hda, Bool.false_eq_true, if_false, Bool.false_and] at htail hhead
+    obtain ⟨s1, r1, s1sp, s1gp, s1x, s1mem, s1ret⟩ := run_a64_sub f.stackAdj tM tMret (by rw [tMsp]; omega) tail htail
+    rw [tMsp] at s1sp
+    refine ⟨s1, ?_, s1ret, by rw [s1x, tMx], by rw [hS]; exact s1sp, ?_, ?_, ?_, ?_, by rw [hS]; omega,
+      fun _ => by rw [hS]; omega, ?_⟩
+    · rw [run_append, rM, Option.bind_some]; exact r1
+    · intro r h31 hsa; rw [s1gp r h31]; exact tMgp r hsa
+    · intro hsa; rw [s1gp _ hsa]; exact tMsa hsa
+    · intro x _; rw [s1mem, tMmem]
+    · rw [hS, hA16]; omega
+    · intro s2 h2sp h2ret _ _
+      obtain ⟨t2, r2, t2sp, t2gp, t2x, t2mem, t2ret⟩ := run_a64_add f.stackAdj s2 h2ret head hhead
+      refine ⟨t2, r2, by rw [t2sp, h2sp, hS]; omega, fun r h31 _ => t2gp r h31, t2x, t2mem, t2ret⟩
+  | true =>
+    obtain ⟨d1, d2, _⟩ := wf.adjDA hda
+    have hsa31 := wf.saDA hda
+    have hhas : a64HasSaReg f = true := by
+      unfold a64HasSaReg
+      have : f.saRegId ≠ 255 := by omega
+      simp [this, hsa31]
+    have hreg : a64SaReg f = f.saRegId := by unfold a64SaReg; rw [hhas]; rfl
+    have hS : a64BodySp f Q = Q - Q % f.finalAlign - f.stackAdj := by unfold a64BodySp; rw [hda]; rfl
+    have hMsa := tMsa hsa31
+    -- `and sp, sa, #-A`
+    have rA : step .a64 (Instr.and3 31 (a64SaReg f) (-(toI32 f.finalAlign))) tM
+        = some (tM.setGp 31 (Q - Q % f.finalAlign)) := by
+      rw [hreg, hA, step_and3_sp f.saRegId k hk7 tM tMret (by rw [hMsa]; exact hbits), hMsa]
+    have hQ'A : (Q - Q % f.finalAlign) % f.finalAlign = 0 := by
+      have := Nat.div_add_mod Q f.finalAlign
+      have e : Q - Q % f.finalAlign = f.finalAlign * (Q / f.finalAlign) := by omega
+      rw [e, Nat.mul_mod_right]
+    have m16 : ∀ x, x % f.finalAlign = 0 → x % 16 = 0 := by
+      intro x hx
+      rw [hA] at hx
+      exact Nat.mod_eq_zero_of_dvd (Nat.dvd_trans h16dvd (Nat.dvd_of_mod_eq_zero hx))
+    have hQ'16 := m16 _ hQ'A
+    have hadj16 := m16 _ d1
+    have hSA : (Q - Q % f.finalAlign - f.stackAdj) % f.finalAlign = 0 := by
+      apply Nat.mod_eq_zero_of_dvd
+      exact Nat.dvd_sub (Nat.dvd_of_mod_eq_zero hQ'A) (Nat.dvd_of_mod_eq_zero d1)
+    generalize hQ' : Q - Q % f.finalAlign = Q' at *
+    have hQ'le : Q' ≤ Q := by omega
+    have tAret : (tM.setGp 31 Q').ret = none := tMret
+    unfold a64PrologTail at htail
+    unfold a64EpilogHead at hhead
+    simp only [hda, if_true, hhas, Bool.not_true, Bool.false_eq_true, if_false, Bool.true_and] at htail hhead
+    by_cases hd : f.daOff = invalidOff
+    · -- frame pointer preserved: no DA slot, the epilog restores sp from x29
+      have hfpt : f.hasFP = true := by
+        cases h : f.hasFP with
+        | true => rfl
+        | false => exact absurd (wf.daIff.mpr ⟨hda, h⟩) (by simp [hd])
+      simp only [hd, ne_eq, not_true_eq_false, if_false] at htail
+      rw [Option.map_eq_some_iff] at htail
+      obtain ⟨subs, hsubs, rfl⟩ := htail
+      obtain ⟨s1, r1, s1sp, s1gp, s1x, s1mem, s1ret⟩ :=
+        run_a64_sub f.stackAdj (tM.setGp 31 Q') tAret (by simp only [setGp_gp, if_true]; omega) subs hsubs
+      simp only [setGp_gp, if_true] at s1sp
+      refine ⟨s1, ?_, s1ret, by rw [s1x]; exact tMx, by rw [hS]; exact s1sp, ?_, ?_, ?_, by rw [hS]; exact hSA,
+        by rw [hS]; omega, fun h => absurd h (by simp), ?_⟩
+      · rw [run_append, rM, Option.bind_some]
+        show (step .a64 _ tM).bind _ = _
+        rw [rA, Option.bind_some]; exact r1
+      · intro r h31 hsa
+        rw [s1gp r h31]; simp only [setGp_gp, if_neg h31]; exact tMgp r hsa
+      · intro hsa
+        rw [s1gp _ hsa]; simp only [setGp_gp, if_neg hsa]; exact hMsa
+      · intro x _; rw [s1mem]; exact congrFun tMmem x
+      · intro s2 h2sp h2ret _ h2fp
+        simp only [hfpt, Bool.and_self, if_true] at hhead
+        injection hhead with hhead; subst hhead
+        refine ⟨s2.setGp 31 (s2.gp 29), run_one _ _ _ _ (step_mov _ 31 29 s2 h2ret), by simp [h2fp hfpt],
+          fun r h31 _ => by simp [h31], rfl, rfl, h2ret⟩
+    · -- no frame pointer: the unaligned sp goes to the DA slot
+      obtain ⟨hnfp⟩ : f.hasFP = false ∧ True := ⟨(wf.daIff.mp hd).2, trivial⟩
+      obtain ⟨da1, da2⟩ := wf.da hd
+      have hdalt : f.daOff < 2 ^ 32 := by omega
+      obtain ⟨hbase, hrem⟩ := daBase_eq f hdalt
+      have hr16 := Nat.mod_lt f.daOff (show 0 < 16 by omega)
+      have hble : a64DaBase f ≤ f.daOff := by rw [hbase]; omega
+      have hb16 : a64DaBase f % 16 = 0 := by rw [hbase]; omega
+      have ha1 : u32 (f.stackAdj + 2 ^ 32 - a64DaBase f) = f.stackAdj - a64DaBase f := by
+        have : f.stackAdj + 2 ^ 32 - a64DaBase f = (f.stackAdj - a64DaBase f) + 2 ^ 32 := by omega
+        unfold u32; rw [this, Nat.add_mod_right, Nat.mod_eq_of_lt (by omega)]
+      simp only [hd, ne_eq, not_false_eq_true, if_true, ha1] at htail
+      rw [Option.bind_eq_some_iff] at htail
+      obtain ⟨sub1, hsub1, htail⟩ := htail
+      rw [Option.map_eq_some_iff] at htail
+      obtain ⟨sub2, hsub2, rfl⟩ := htail
+      obtain ⟨tB, rB, tBsp, tBgp, tBx, tBmem, tBret⟩ :=
+        run_a64_sub (f.stackAdj - a64DaBase f) (tM.setGp 31 Q') tAret (by simp only [setGp_gp, if_true]; omega) sub1 hsub1
+      simp only [setGp_gp, if_true] at tBsp
+      have tBsa : tB.gp f.saRegId = Q := by rw [tBgp _ hsa31]; simp only [setGp_gp, if_neg hsa31]; exact hMsa
+      -- the store to the DA slot
+      let p : PSlot := (0, 8, f.saRegId, none, f.daOff &&& 15)
+      have hstC : step .a64 (Instr.stp 0 8 (a64SaReg f) none 31 (toI32 (f.daOff &&& 15)) .fixed) tB
+          = some { tB with mem := storeBytes tB.mem (a64BodySp f Q + f.daOff) 8 Q } := by
+        rw [hreg]
+        have := step_stFix p tB tBret (by rw [tBsp]; omega) (by show f.daOff &&& 15 < _; rw [hrem]; omega)
+        rw [show stFix p = Instr.stp 0 8 f.saRegId none 31 (toI32 (f.daOff &&& 15)) .fixed from rfl] at this
+        rw [this]
+        have haddr : tB.gp 31 + (f.daOff &&& 15) = a64BodySp f Q + f.daOff := by
+          rw [tBsp, hrem, hS, hbase]; omega
+        show some { tB with mem := pStore tB p (tB.gp 31 + (f.daOff &&& 15)) } = _
+        rw [haddr]
+        simp only [pStore, p, St.reg, if_true, tBsa]
+      obtain ⟨s1, r1, s1sp, s1gp, s1x, s1mem, s1ret⟩ :=
+        run_a64_sub (a64DaBase f) { tB with mem := storeBytes tB.mem (a64BodySp f Q + f.daOff) 8 Q } tBret
+          (by show a64DaBase f ≤ tB.gp 31; rw [tBsp]; omega) sub2 hsub2
+      have s1sp' : s1.gp 31 = a64BodySp f Q := by
+        rw [s1sp]; show tB.gp 31 - a64DaBase f = _; rw [tBsp, hS]; omega
+      refine ⟨s1, ?_, s1ret, by rw [s1x]; show tB.x = _; rw [tBx]; exact tMx, s1sp', ?_, ?_, ?_, by rw [hS]; exact hSA,
+        by rw [hS]; omega, fun h => absurd h (by simp), ?_⟩
+      · rw [run_append, rM, Option.bind_some]
+        show (step .a64 _ tM).bind _ = _
+        rw [rA, Option.bind_some]
+        simp only [List.append_eq, List.nil_append]
+        rw [run_append, run_append, rB, Option.bind_some]
+        show ((step .a64 _ tB).bind _).bind _ = _
+        rw [hstC]; exact r1
+      · intro r h31 hsa
+        rw [s1gp r h31]; show tB.gp r = _
+        rw [tBgp r h31]; simp only [setGp_gp, if_neg h31]; exact tMgp r hsa
+      · intro hsa
+        rw [s1gp _ hsa]; exact tBsa
+      · intro x hx
+        rw [s1mem]
+        show storeBytes tB.mem (a64BodySp f Q + f.daOff) 8 Q x = _
+        rw [storeBytes_other _ _ _ _ _ (by rw [hS] at hx ⊢; omega), tBmem]
+        exact congrFun tMmem x
+      · intro s2 h2sp h2ret h2mem _
+        simp only [hnfp, Bool.and_false, Bool.false_eq_true, if_false, hd, bne_iff_ne, ne_eq, not_false_eq_true,
+          decide_true, Bool.and_self, if_true] at hhead
+        rw [Option.map_eq_some_iff] at hhead
+        obtain ⟨add1, hadd1, rfl⟩ := hhead
+        obtain ⟨tD, rD, tDsp, tDgp, tDx, tDmem, tDret⟩ := run_a64_add (a64DaBase f) s2 h2ret add1 hadd1
+        rw [h2sp] at tDsp
+        have hld := step_ldFix p tD tDret (by rw [tDsp, hS]; omega) (by show f.daOff &&& 15 < _; rw [hrem]; omega)
+        rw [show ldFix p = Instr.ldp 0 8 f.saRegId none 31 (toI32 (f.daOff &&& 15)) .fixed from rfl] at hld
+        have haddr : tD.gp 31 + (f.daOff &&& 15) = a64BodySp f Q + f.daOff := by
+          rw [tDsp, hrem, hbase]; omega
+        have hval : loadBytes tD.mem (a64BodySp f Q + f.daOff) 8 = Q := by
+          rw [tDmem]
+          have : loadBytes s2.mem (a64BodySp f Q + f.daOff) 8
+              = loadBytes (storeBytes tB.mem (a64BodySp f Q + f.daOff) 8 Q) (a64BodySp f Q + f.daOff) 8 := by
+            apply loadBytes_congr
+            intro x hx1 hx2
+            rw [h2mem x (by omega) (by rw [hS] at hx2; omega), s1mem]
+          rw [this, loadBytes_store_same, Nat.mod_eq_of_lt (by
+            have : (256 : Nat) ^ 8 = 2 ^ 64 := by decide
+            rw [this]; exact hbits)]
+        let tE : St := pLoad tD tD.mem p (tD.gp 31 + (f.daOff &&& 15))
+        have tEsa : tE.gp f.saRegId = Q := by
+          simp only [tE, pLoad, p, St.setReg, if_true, setGp_gp]
+          rw [haddr]; exact hval
+        have tEret : tE.ret = none := by simp only [tE, pLoad, p]; rw [setReg_ret]; exact tDret
+        refine ⟨tE.setGp 31 (tE.gp f.saRegId), ?_, by simp only [setGp_gp, if_true]; exact tEsa, ?_, ?_, ?_, tEret⟩
+        · rw [run_append, rD, Option.bind_some]
+          show (step .a64 _ tD).bind _ = _
+          rw [hld, Option.bind_some]
+          exact run_one _ _ _ _ (step_mov _ 31 _ tE tEret)
+        · intro r h31 hsa
+          simp only [setGp_gp, if_neg h31, tE, pLoad, p, St.setReg, if_true, if_neg hsa]
+          exact tDgp r h31
+        · simp only [setGp_x, tE, pLoad, p, St.setReg, if_true]; exact tDx
+        · simp only [setGp_mem, tE, pLoad, p]; rw [setReg_mem]; exact tDmem
+
+/-- **AArch64: prolog, any confined body, epilog** - every frame, incl. dynamic alignment and SA registers. -/
 theorem a64_main (f : Frame) (wf : A64WF f) (pro epi : List Instr)
     (hpro : a64Prolog f = some pro) (hepi : a64Epilog f = some epi) (s0 : St)
-    (hentry : entryOk f s0 = true) (hroom : f.finalSize ≤ s0.gp 31) (hlr : s0.gp 30 < 256 ^ 8) :
+    (hentry : entryOk f s0 = true) (hroom : f.finalSize + 2 * f.finalAlign ≤ s0.gp 31) (hbits : s0.gp 31 < 2 ^ 64)
+    (hlr : s0.gp 30 < 256 ^ 8) :
     ∃ s1, run .a64 pro s0 = some s1 ∧ s1.ret = none ∧ bodyEntryOk f s0 s1 = true
       ∧ (∀ x, s0.gp 31 ≤ x → s1.mem x = s0.mem x)
       ∧ ∀ s2, BodyOK f (s0.gp 31) s1 s2 →
           ∃ s3, run .a64 epi s2 = some s3 ∧ exitOk f s0 s3 = true ∧ s3.mem = s2.mem := by
   have harch := wf.arch
-  obtain ⟨hA, hN⟩ := wf.align
-  obtain ⟨hadj, hadj16⟩ := wf.adj
-  obtain ⟨htot, hsaoff⟩ := wf.total
-  obtain ⟨hpei, hpp16, hfs⟩ := wf.pei
+  have hN := wf.nat
+  have htot := wf.total
+  obtain ⟨hpei, hpp16, hfs, hadjsm⟩ := wf.pei
+  obtain ⟨k, hk4, hk7, hA⟩ := wf.kA
+  have hpk : 2 ^ k ≤ 128 := by
+    have : 2 ^ k ≤ 2 ^ 7 := Nat.pow_le_pow_right (by omega) hk7
+    omega
   have hret0 : s0.ret = none := by
     unfold entryOk at hentry
     simp only [Bool.and_eq_true, Option.isNone_iff_eq_none] at hentry
@@ -303,53 +565,78 @@ theorem a64_main (f : Frame) (wf : A64WF f) (pro epi : List Instr)
     simp only [Bool.and_eq_true, beq_iff_eq, harch, Arch.spId, Arch.retSize, Arch.lrId, hN, Nat.add_zero] at hentry
     exact hentry.2
   generalize hsp0 : s0.gp 31 = sp0 at *
-  -- unpack the instruction lists
   unfold a64Prolog at hpro
   unfold a64Epilog at hepi
   rw [Option.map_eq_some_iff] at hpro hepi
-  obtain ⟨subs, hsubs, rfl⟩ := hpro
-  obtain ⟨adds, hadds, rfl⟩ := hepi
+  obtain ⟨tail, htail, rfl⟩ := hpro
+  obtain ⟨head, hhead, rfl⟩ := hepi
   have r0 : run .a64 (a64Bti f) s0 = some s0 := by
     apply run_nops _ _ _ _ hret0
     intro i hi; unfold a64Bti at hi; split at hi <;> simp at hi; exact ⟨_, hi⟩
   obtain ⟨tS, rS, tSsp, tSgp, tSx, tSret, tSfp, tSmem, hloads⟩ := a64_saves f wf s0 sp0 hsp0 hret0 hent (by omega)
   generalize hQ : sp0 - f.ppSize = Q at *
-  obtain ⟨s1, r1, s1sp, s1gp, s1x, s1mem, s1ret⟩ := run_a64_sub f.stackAdj tS tSret (by rw [tSsp]; omega) subs hsubs
-  rw [tSsp] at s1sp
+  have hQsp0 : Q + f.ppSize = sp0 := by omega
+  have hQ16 : Q % 16 = 0 := by omega
+  have hadjle : f.stackAdj ≤ f.ppOff + f.finalAlign := by
+    cases hda : f.hasDA with
+    | false => rw [(wf.adjPlain hda).1]; omega
+    | true =>
+      have := (wf.adjDA hda).2.2.2; omega
+  obtain ⟨s1, r1, s1ret, s1x, s1sp, s1gp, s1sa, s1mem, s1al, s1le, s1eq, hhd⟩ :=
+    a64_tail f wf tS Q tSret tSsp tSfp hQ16 (by omega) (by omega) tail head htail hhead
+  generalize hS : a64BodySp f Q = S at *
   have hlocal := wf.localFits
+  have hppadj : f.ppOff ≤ f.stackAdj := by
+    cases hda : f.hasDA with
+    | false => rw [(wf.adjPlain hda).1]; exact Nat.le_refl _
+    | true => exact (wf.adjDA hda).2.1
   refine ⟨s1, ?_, s1ret, ?_, ?_, ?_⟩
   · rw [run_append, r0, Option.bind_some, run_append, rS, Option.bind_some]; exact r1
   · unfold bodyEntryOk
     simp only [harch, Arch.spId, hsp0, saBase, Arch.retSize, Arch.lrId, Nat.add_zero,
       Bool.and_eq_true, Bool.or_eq_true, Bool.not_eq_true', beq_iff_eq]
-    refine ⟨⟨?_, ?_⟩, Or.inr ?_⟩
-    · right
-      rw [s1sp, hA]
-      have : Q % 16 = 0 := by
-        rw [← hQ]
-        have : sp0 - f.ppSize = 16 * (sp0 / 16 - f.ppSize / 16) := by omega
-        rw [this, Nat.mul_mod_right]
-      omega
-    · rcases wf.sa with hsa | ⟨hsa, hfp⟩
-      · rw [if_pos hsa, beq_iff_eq, s1sp, hsaoff]; omega
-      · rw [if_neg (by omega), beq_iff_eq, hsa, s1gp 29 (by omega), tSfp hfp, wf.saOffSa]; omega
-    · rw [s1sp, hsaoff]; omega
+    refine ⟨⟨Or.inr (by rw [s1sp]; exact s1al), ?_⟩, ?_⟩
+    · by_cases hsa : f.saRegId = 31
+      · have hnda : f.hasDA = false := by
+          cases h : f.hasDA with
+          | false => rfl
+          | true => exact absurd hsa (wf.saDA h)
+        rw [if_pos hsa, beq_iff_eq, s1sp, (wf.adjPlain hnda).2.2.1]
+        have e1 := (wf.adjPlain hnda).1
+        have := s1eq hnda; omega
+      · rw [if_neg hsa, beq_iff_eq, s1sa hsa, wf.saOffSa]; omega
+    · cases hda : f.hasDA with
+      | true => exact Or.inl (wf.adjDA hda).2.2.1
+      | false =>
+        right
+        rw [s1sp, (wf.adjPlain hda).2.2.1]
+        have e1 := (wf.adjPlain hda).1
+        have := s1eq hda; omega
   · intro x hx
-    rw [s1mem, tSmem x (Or.inr hx)]
+    rw [s1mem x (Or.inr (by omega)), tSmem x (Or.inr hx)]
   · intro s2 hbody
     obtain ⟨b_sp, b_mem, b_gp, b_x, b_ret⟩ := hbody
     simp only [harch, Arch.spId] at b_sp b_mem
     rw [s1sp] at b_sp b_mem
-    have hbodymem : ∀ x, Q ≤ x → x < sp0 → s2.mem x = s1.mem x := by
+    have hbodymem : ∀ x, S + f.localEnd ≤ x → x < sp0 → s2.mem x = s1.mem x := by
       intro x h1 h2
-      apply b_mem x (by unfold Frame.localEnd at hlocal ⊢; omega)
+      apply b_mem x h1
       simp only [saBase, harch, Arch.retSize, Arch.lrId, Nat.add_zero]
       omega
-    obtain ⟨t2, r2, t2sp, t2gp, t2x, t2mem, t2ret⟩ := run_a64_add f.stackAdj s2 b_ret adds hadds
-    rw [b_sp] at t2sp
-    have ht2sp : t2.gp 31 = Q := by rw [t2sp]; omega
+    have hfp29 : f.hasFP = true → s2.gp 29 = Q := by
+      intro hfp
+      have hw : f.bodyMayWrite 0 29 = false := by
+        unfold Frame.bodyMayWrite
+        simp [harch, Arch.fpId, Arch.spId, hfp]
+      rw [b_gp 29 hw]
+      by_cases hsa : f.saRegId = 29
+      · have := s1sa (by rw [hsa]; omega); rw [hsa] at this; exact this
+      · rw [s1gp 29 (by omega) (fun h => hsa h.symm)]; exact tSfp hfp
+    obtain ⟨t2, r2, ht2sp, t2gp, t2x, t2mem, t2ret⟩ :=
+      hhd s2 b_sp b_ret (fun x h1 h2 => hbodymem x h1 (by omega)) hfp29
     obtain ⟨t3, r3, t3sp, t3mem, t3ret, t3in, t3out⟩ :=
-      hloads t2 ht2sp t2ret (fun x h1 h2 => by rw [t2mem, hbodymem x h1 h2, s1mem])
+      hloads t2 ht2sp t2ret (fun x h1 h2 => by
+        rw [t2mem, hbodymem x (by unfold Frame.localEnd at hlocal ⊢; omega) h2, s1mem x (Or.inr h1)])
     let s3 : St := { t3 with ret := some (t3.gp 30) }
     have r4 : run .a64 [Instr.retReg 30] t3 = some s3 := by
       apply run_one
@@ -387,7 +674,11 @@ theorem a64_main (f : Frame) (wf : A64WF f) (pro epi : List Instr)
         · subst hg0
           have hr31 : r ≠ 31 := fun h => hne (by rw [h])
           simp only [St.reg, if_true]
-          rw [t2gp r hr31, b_gp r hw, s1gp r hr31]
+          have hrsa : r ≠ f.saRegId := by
+            intro h
+            have := wf.saDirty (by rw [← h]; exact hr31)
+            rw [← h, hnd] at this; exact absurd this (by simp)
+          rw [t2gp r hr31 hrsa, b_gp r hw, s1gp r hr31 hrsa]
           rw [tSgp r (by
             by_cases h29 : r = 29
             · right
@@ -430,7 +721,11 @@ theorem a64_main (f : Frame) (wf : A64WF f) (pro epi : List Instr)
               exact absurd ((wf.keys 0 30 (by omega)).mpr ⟨by omega, by
                 unfold Frame.saved; rw [Nat.testBit_and, hd, wf.lrPres]; rfl⟩) hk
           have hw : f.bodyMayWrite 0 30 = false := by unfold Frame.bodyMayWrite; rw [hnd]; rfl
-          rw [h2, t2gp 30 (by omega), b_gp 30 hw, s1gp 30 (by omega), tSgp 30 (Or.inl (by omega)) (by omega)]
+          have h30sa : (30 : Nat) ≠ f.saRegId := by
+            intro h
+            have := wf.saDirty (by rw [← h]; omega)
+            rw [← h, hnd] at this; exact absurd this (by simp)
+          rw [h2, t2gp 30 (by omega) h30sa, b_gp 30 hw, s1gp 30 (by omega) h30sa, tSgp 30 (Or.inl (by omega)) (by omega)]
       · simp only [s3]; exact t3sp
       · intro g hg r hr
         by_cases hcs' : f.calleeSaved g r = false
